@@ -114,5 +114,19 @@ UNIT = {
             {"after": r"let \(i, raw_msg\) = take\(hl\)\(i\)\?;", "text": "    proof { assert(raw_msg@ =~= i0.subrange(4, 4 + hl as int)); assert(i@ =~= i0.subrange(4 + hl as int, i0.len() as int)); }"},
         ]},
     ],
-    "epilogue": "",
+    "epilogue": r'''
+// C06 LOCALITY: a handshake message decoded from b is decoded identically from b ++ x; the remainder grows by x.
+proof fn lemma_hs_local(b: Seq<u8>, x: Seq<u8>, r1: IResult<&[u8], TlsMessage>, r2: IResult<&[u8], TlsMessage>)
+    requires hs_dispatch_post(b, r1), r1 is Ok, hs_dispatch_post(b + x, r2),
+    ensures r2 is Ok, r2->Ok_0.1 == r1->Ok_0.1, r2->Ok_0.0@ =~= r1->Ok_0.0@ + x,
+{
+    let bx = b + x;
+    assert(b.len() >= 4);
+    assert(bx[0] == b[0] && bx[1] == b[1] && bx[2] == b[2] && bx[3] == b[3]);
+    let hl = (b[1] as int) * 65536 + (b[2] as int) * 256 + (b[3] as int);
+    assert(b.len() >= 4 + hl);
+    assert(bx.subrange(4, 4 + hl) =~= b.subrange(4, 4 + hl));
+    assert(bx.subrange(4 + hl, bx.len() as int) =~= b.subrange(4 + hl, b.len() as int) + x);
+}
+''',
 }
